@@ -102,6 +102,10 @@ def h20(c, mode="sim", K=3, n_markets=2):
                     _drain(fl, log)
             market = fl.markets.markets.get(mid)
             if st != "CLOSED":
+                for s_ in strategies:
+                    # every strategy looks at its runner accounting for the market (as has_executable_orders / validate_order do), whether or
+                    # not it ever gets an order into the blotter
+                    s_.get_runner_context(mid, 1, 0)
                 if market is not None and mid not in order_in and c.choose("place_order_at%d" % k, [False, True]):
                     o, _ = ss.resting_limit(c, "o%d" % k, fl, market, strategies[0], 100 + k, status=S.EXECUTABLE, price=2.0, persistence="LAPSE",
                                             max_frags=1, min_frags=1, allow_cancelled=False, side="BACK", client=clients[0],
